@@ -10,4 +10,3 @@ python3 /verif/tools/skelagg.py $src $w/GenAgg.v $w/skelagg.json
 coq_makefile -f _CoqProject -o Makefile >/dev/null
 ties=$(ls Props/Tie_*.v | sed 's/\.v$/.vo/')
 make -k -j16 $ties 2>&1 | grep -E "^File|Error|\*\*\*" | grep -v "^make" | head -40
-for t in $ties; do [ $t -nt GenCore.v ] || [ $t -nt Makefile ] || echo "STALE/FAILED $t"; done
